@@ -345,3 +345,15 @@ fn ty_owned_fallback<'a>(v: Vis, cow: CowStr<'a>, location: Location) -> (r: Res
 /// `if let Cow::Borrowed(b) = cow`: whether the parser could lend the text
 #[verifier::external_body]
 fn cowstr_is_borrowed<'a>(c: &CowStr<'a>) -> (r: bool) ensures r == c.is_borrowed(), { unimplemented!() }
+
+// ---- deserialize_f32 ----
+uninterp spec fn sp_float32(b: Seq<u8>, tag: SfTag, angle: bool) -> Option<f32>;
+uninterp spec fn vis_f32(v: Vis, x: f32) -> Result<VisVal, Error>;
+#[verifier::external_body]
+fn ty_parse_float_f32(s: &str, location: Location, tag: SfTag, angle: bool) -> (r: Result<f32, Error>)
+    ensures match r { Ok(v) => sp_float32(s.spec_bytes(), tag, angle) == Some(v), Err(_) => sp_float32(s.spec_bytes(), tag, angle) is None },
+{ unimplemented!() }
+impl Vis {
+    #[verifier::external_body]
+    fn visit_f32(self, x: f32) -> (r: Result<VisVal, Error>) ensures r == vis_f32(self, x), { unimplemented!() }
+}
